@@ -61,8 +61,9 @@ func runC01(c *core.Ctx) {
 		c.Rule("R1.18", "the tiers are wired as the orchestrators assume: the accept loop hands the handler of its first constructor to the orchestrator as L1 and of its second as L2; main passes an L1 constructor built from --l1-sock (or the in-memory backend) and an L2 constructor built from --l2-sock, for both ports", 3)
 		runR118(c, "R1.18")
 		c.Share(map[string]string{"R16.4": "R1.17"}, runC16)
+		c.Share(map[string]string{"R3.4": "R1.24"}, runC03) // "L1/L2 with the additional batch port" under the locking wrapper: a port locking through the wrong table lets a write slip into a get's back-fill, L1 then answers with the old value
 		c.Share(map[string]string{"R7.9": "R1.22"}, runC07) // a request header released twice is handed to two connections: the command executed is not the command sent
-		c.Share(map[string]string{"R8.11": "R1.19"}, runC08) // a get whose terminator is swallowed never completes for the client: a single map always answers END
+		c.Share(map[string]string{"R8.11": "R1.19", "R8.3": "R1.23"}, runC08) // a get whose terminator is swallowed never completes for the client: a single map always answers END
 		c.Share(map[string]string{"R9.1": "R1.20"}, runC09)  // a tier handed TTL 0 keeps the item for ever: get hits where the map misses, add says exists                   // a set acknowledged with a chunk count the reader does not find is a miss where the map says hit
 		// necessary conditions shared with other properties (same obligations, this property's numbering)
 		c.Share(map[string]string{"R9.3": "R1.12"}, runC09) // a touch/set whose TTL lands in the wrong field changes when the map answers hit or miss
@@ -608,9 +609,29 @@ func runR18(c *core.Ctx) {
 					if d == e {
 						continue
 					}
-					// an I/O error of draining the body is fine; nil or another sentinel is not
-					if ssax.IsNilConst(d) || ssax.SentinelOf(d) != "" {
+					// an I/O error of draining the body is fine; nil or another sentinel is not - unless the return sits
+					// under the test "status == that sentinel"
+					if ssax.IsNilConst(d) {
 						return true
+					}
+					if sn := ssax.SentinelOf(d); sn != "" {
+						same := false
+						for _, ec := range ssax.DomConds(ret.Block()) {
+							bo, ok := ec.Cond.(*ssa.BinOp)
+							if !ok || (bo.Op != token.EQL && bo.Op != token.NEQ) || (bo.Op == token.EQL) != ec.True {
+								continue
+							}
+							x, y := bo.X, bo.Y
+							if ssax.SentinelOf(x) != "" {
+								x, y = y, x
+							}
+							if ds := ssax.Defs(x); ssax.SentinelOf(y) == sn && len(ds) == 1 && ds[0] == e {
+								same = true
+							}
+						}
+						if !same {
+							return true
+						}
 					}
 				}
 				return false
